@@ -29,6 +29,10 @@ def main(argv=None):
     except ModuleNotFoundError:
         print("no check for property %s" % a.prop)
         return 3
+    except Exception:
+        traceback.print_exc()
+        print("CHECKER-FAULT property=%s (no verdict)" % a.prop)
+        return 3
     ctx = Ctx(a.prop, a.tier, seed, write_evidence=not a.no_evidence)
     try:
         if a.replay:
@@ -68,4 +72,12 @@ def main(argv=None):
 
 
 if __name__ == "__main__":
-    sys.exit(main())
+    try:
+        code = main()
+    except SystemExit:
+        raise
+    except BaseException:        # nothing but a printed VIOLATION line may end with exit status 1
+        traceback.print_exc()
+        print("CHECKER-FAULT (no verdict)")
+        code = 3
+    sys.exit(code)
